@@ -233,6 +233,91 @@ def make_levelA(mode, N, tol, first=False):
                       theory="QF_UFLRA", timeout_ms=30000, max_paths=6000, max_decisions=200)
 
 
+def make_levelA_two_steps(mode, N, tol):
+    """two consecutive reweighting steps on one Reweighter object; between them a batch is committed, so the pool (the
+    uninterpreted family) changes: nothing remembered from the first step may stand in for the second pool's ESS."""
+    tolf = Fraction(tol)
+
+    def harness(ctx: PathCtx):
+        st = StateManager(n_dim=1)
+        beta_prev = real(ctx, "beta_prev", lo=0, hi=1)
+        target = real(ctx, "ess_target", lo=0, lo_strict=True)
+        vtarget = real(ctx, "vv_target", lo=0, lo_strict=True) if mode == "vol" else None
+        st.update_current({"u": np.zeros((N, 1)), "logl": np.zeros(N), "beta": 0.0, "logz": 0.0})
+        st.commit_current_to_history()
+        st._current["beta"] = beta_prev
+        st._current["iter"] = 3
+        rw = rw_mod.Reweighter(state=st, pbar=None, n_particles=1, ess_ratio=target, volume_variation=vtarget, ESS_TOLERANCE=0.01, BETA_TOLERANCE=float(tolf))
+        proxy = NpProxy(overrides={"max": max_model, "isfinite": lambda x: True})
+        fams = []
+        for step in range(2):
+            fam = Family(N)
+            # a different pool per step: fresh uninterpreted functions
+            fam.E = z3.Function(f"ESSf_{step}", z3.RealSort(), z3.RealSort())
+            fam.Z = z3.Function(f"Zf_{step}", z3.RealSort(), z3.RealSort())
+            fam.VV = z3.Function(f"VVf_{step}", z3.RealSort(), z3.RealSort())
+            fams.append(fam)
+            st.compute_logw_and_logz = fam.compute(ctx)
+            b_before = SymReal.lift(st._current["beta"])
+            try:
+                with patched(rw_mod, np=proxy, volume_variation=fam.vv(ctx), effective_sample_size=fam.ess(ctx)):
+                    rw.run()
+            except HarnessErrorC05 as e:
+                ctx.fail("weights-and-metrics-are-computed-from-one-temperature", str(e))
+                return None
+            beta = SymReal.lift(st._current["beta"])
+            E = lambda b, f=fam: SymReal(f.E(f.bt(b)))
+            advanced = (beta > b_before).z
+            ctx.check(f"step{step + 1}:beta-monotone-and-bounded", z3.And(le(b_before, beta), le(beta, 1)))
+            if mode == "ess":
+                ctx.check(f"step{step + 1}:advance=>ESS(beta)>=target-on-the-current-pool", z3.Implies(advanced, le(target, E(beta))))
+            else:
+                cands = [z3.And(le(beta, bq), le(target, E(bq))) for bq in fam.queried]
+                ctx.check(f"step{step + 1}:advance=>beta<=some-ESS-admissible-beta-of-the-current-pool", z3.Implies(advanced, z3.Or(*cands)))
+            ctx.check(f"step{step + 1}:recorded-ess-is-at-recorded-beta-of-the-current-pool", eq(st._current["ess"], E(beta)))
+            st.commit_current_to_history()  # the new batch changes the pool
+        return None
+
+    def replay(m, label, v):
+        """scripted two-step pool: ESS(beta) decreasing; the second pool has a much lower ESS everywhere"""
+        st = StateManager(n_dim=1)
+        st.update_current({"u": np.zeros((N, 1)), "logl": np.zeros(N), "beta": 0.0, "logz": 0.0})
+        st.commit_current_to_history()
+        st._current["beta"] = 0.0
+        st._current["iter"] = 3
+        target = 1.5
+        rw = rw_mod.Reweighter(state=st, pbar=None, n_particles=1, ess_ratio=target, volume_variation=(0.3 if mode == "vol" else None),
+                               ESS_TOLERANCE=0.01, BETA_TOLERANCE=float(tolf))
+        pools = [lambda b: 2.0 - 0.9 * b, lambda b: 2.0 - 4.0 * b]
+        vvs = [lambda b: 0.25 + 0.4 * b, lambda b: 0.2 * b]  # step 1 is held back by the volume target, step 2 is not
+        bad = None
+        for step in range(2):
+            ess_of, vv_of = pools[step], vvs[step]
+
+            def compute(beta_final=1.0, normalize=True):
+                return sarr([FamVal("logw", beta_final, s_, N) for s_ in range(N)]), -float(beta_final)
+            st.compute_logw_and_logz = compute
+            tagf = lambda w: [x for x in np.asarray(w, dtype=object).reshape(-1)][0].beta
+            b0 = st._current["beta"]
+            with patched(rw_mod, np=NpProxy(overrides={"max": max_model}), volume_variation=lambda u, w, vv_of=vv_of: vv_of(tagf(w)),
+                         effective_sample_size=lambda w, ess_of=ess_of: max(1.0, ess_of(tagf(w)))):
+                rw.run()
+            b1 = st._current["beta"]
+            if b1 > b0 and max(1.0, ess_of(b1)) < target - 1e-9 and bad is None:
+                bad = (step + 1, b0, b1, max(1.0, ess_of(b1)))
+            st.commit_current_to_history()
+        return {"reproduced": bad is not None, "signature": f"Reweighter.run:second-step-uses-stale-limit:{mode}",
+                "payload": {"violation": bad, "target": target},
+                "what": (f"two consecutive Reweighter.run() calls on a pool whose ESS drops after the first batch: step {bad[0]} advanced from beta {bad[1]:.4f} to "
+                         f"{bad[2]:.4f} where the current pool's ESS is {bad[3]:.3f} < target {target}") if bad else "no violation in the scripted two-step scenario"}
+
+    return Obligation(f"A2-{mode}-N{N}-tol{tol}", harness, replay=replay,
+                      encodes=[rw_mod.Reweighter.run, rw_mod.Reweighter._find_beta_upper_limit, rw_mod.Reweighter._find_beta_bisection],
+                      bounds=f"two consecutive steps on one Reweighter, a different uninterpreted pool per step, BETA_TOLERANCE={tol}, symbolic beta_prev / targets",
+                      stubs=["state.compute_logw_and_logz / effective_sample_size / volume_variation -> per-step uninterpreted families"],
+                      theory="QF_UFLRA", timeout_ms=30000, max_paths=30000, max_decisions=400)
+
+
 def concrete_family_replay(m, label, mode, N, tolf):
     """Replay a Level-A counterexample: the real Reweighter.run is executed with plain floats against a scripted
     concrete pool double that answers the k-th evidence / ESS / volume query with the solver model's value."""
@@ -414,6 +499,7 @@ def make_levelB(N, tol, ratio, D):
 def obligations(tier):
     if tier == "quick":
         return [make_levelA("ess", 2, "1/4"), make_levelA("ess", 2, "1/4", first=True), make_levelA("vol", 2, "1/4"),
+                make_levelA_two_steps("vol", 2, "1/2"), make_levelA_two_steps("ess", 2, "1/2"),
                 make_levelB(2, "1/4", "3/2", 8), make_levelB(2, "1/2", "5/4", 4)]
     return [make_levelA("ess", 2, "1/4"), make_levelA("ess", 2, "1/4", first=True), make_levelA("vol", 2, "1/4"),
             make_levelA("ess", 2, "1/16"), make_levelA("ess", 3, "1/8"), make_levelA("vol", 2, "1/8"), make_levelA("vol", 3, "1/4"),
